@@ -206,10 +206,42 @@ func Resolve(root J, s J) J {
 // validity; ok=false means the generator gave up (e.g. unbounded recursion
 // through required properties).
 func Valid(t *rapid.T, label string, root J, s J, depth int) (any, bool) {
-	s = Resolve(root, s)
 	if depth > 6 {
 		return nil, false
 	}
+	// polymorphism: a position typed by a discriminated base holds a subtype
+	// instance whose discriminator names the subtype definition
+	if r, ok := s["$ref"].(string); ok {
+		name := strings.TrimPrefix(r, "#/definitions/")
+		defs, _ := root["definitions"].(J)
+		if target, ok := defs[name].(J); ok {
+			if disc, ok := target["discriminator"].(string); ok {
+				if subs := PolySubtypes(root, name); len(subs) > 0 {
+					sub := rapid.SampledFrom(subs).Draw(t, label+"_subtype")
+					return Valid(t, label+"_sub", root, J{"$ref": "#/definitions/" + sub}, depth)
+				}
+				v, ok := Valid(t, label, root, target, depth)
+				if obj, isObj := v.(J); ok && isObj {
+					obj[disc] = name
+				}
+				return v, ok
+			}
+			for _, m := range asList(target["allOf"]) {
+				mj, _ := m.(J)
+				br, _ := mj["$ref"].(string)
+				if b, ok := defs[strings.TrimPrefix(br, "#/definitions/")].(J); ok {
+					if disc, ok := b["discriminator"].(string); ok {
+						v, ok := Valid(t, label, root, target, depth)
+						if obj, isObj := v.(J); ok && isObj {
+							obj[disc] = name
+						}
+						return v, ok
+					}
+				}
+			}
+		}
+	}
+	s = Resolve(root, s)
 	if e, ok := s["enum"].(A); ok && len(e) > 0 {
 		return rapid.SampledFrom(e).Draw(t, label+"_enumpick"), true
 	}
@@ -217,7 +249,8 @@ func Valid(t *rapid.T, label string, root J, s J, depth int) (any, bool) {
 		out := J{}
 		for i, m := range ao {
 			mj, _ := m.(J)
-			v, ok := Valid(t, fmt.Sprintf("%s_ao%d", label, i), root, mj, depth+1)
+			// members are read through their $ref without polymorphic dispatch
+			v, ok := Valid(t, fmt.Sprintf("%s_ao%d", label, i), root, Resolve(root, mj), depth+1)
 			if !ok {
 				return nil, false
 			}
